@@ -58,10 +58,23 @@ theorem good_positioned_of {inp G r its} (hb : Base inp G r) (he : Eof inp r) (h
   simp only [Good, hst]
   exact ⟨hb, he, hip, hits⟩
 
+/-- results of one `next` call: S's next item, or – in a non-ideal environment – the reader
+stopped (a failed first refill leaves it `new`, everything else `finished`) -/
+def FoundN (inp : List UInt8) (G : Prop) (its : List FqItem) (x : Reader × Res Bool) : Prop :=
+  Found inp G .parsing its x ∨
+  (¬ G ∧ (x.2 = .ok false ∨ ∃ k, x.2 = .err (.io k)) ∧
+    ∃ its', Good inp G x.1 its' ∧ (x.1.state = .finished ∨ x.1.state = .new))
+
+theorem good_finished_of {inp G r} (hw : Win inp G r) (hst : r.state = .finished) :
+    Good inp G r [] := by
+  unfold Good
+  rw [hst]
+  exact ⟨hw, rfl⟩
+
 /-- one `next` call finds S's next item -/
 theorem next_found (inp : List UInt8) (G : Prop) (fuel : Nat) (r : Reader) (its : List FqItem)
     (hg : Good inp G r its) (hfuel : r.br.src.inp.length + 2 ≤ fuel) :
-    Found inp G .parsing its (next fuel r) := by
+    FoundN inp G its (next fuel r) := by
   cases hst : r.state with
   | positioned =>
     simp only [Good, hst] at hg
@@ -70,39 +83,57 @@ theorem next_found (inp : List UInt8) (G : Prop) (fuel : Nat) (r : Reader) (its 
     have : next fuel r = nextCont fuel { r with state := .parsing } := by
       simp only [next, hst]
     rw [this, hits]
-    exact nextCont_found inp G fuel { r with state := .parsing } (hb.set_state _) he hip hfuel
+    exact Or.inl (nextCont_found inp G fuel { r with state := .parsing } (hb.set_state _) he hip
+      hfuel)
   | finished =>
     simp only [Good, hst] at hg
-    obtain ⟨hw, he, hits⟩ := hg
+    obtain ⟨hw, hits⟩ := hg
     subst hits
     simp only [next, hst]
-    exact Or.inr (Or.inl ⟨rfl, rfl, hst, hw, he⟩)
+    exact Or.inl (Or.inr (Or.inl ⟨rfl, rfl, hst, hw⟩))
   | new =>
     simp only [Good, hst] at hg
-    obtain ⟨hw, hbuf, hcur, hp0, hbyte, hline, hip, hitems⟩ := hg
-    obtain ⟨br', ext, n, hfill, hbuf', hcap', hcur', hext, hw2, he2, hn⟩ := fill_win inp G r hw
+    obtain ⟨hw, hbufG, hp0, hbyte, hline, hip, hitems⟩ := hg
     rw [hw.inp_eq] at hfuel
-    cases n with
-    | zero =>
-      have hnil : inp = [] := by
-        have := hw.cap3
-        rw [hbuf, hcur, ← hn] at hext
-        simp only [List.length_nil, Nat.sub_zero] at hext
-        have : inp.length = 0 := by omega
-        exact List.eq_nil_of_length_eq_zero this
-      have hi : its = [] := by
-        rw [hitems, hnil]
-        exact fqGo_end false 0 1
-      subst hi
-      simp only [next, hst, init, hfill]
-      exact Or.inr (Or.inl ⟨rfl, rfl, rfl, hw2.set_state _, he2⟩)
-    | succ n =>
-      have : next fuel r = nextCont fuel { r with br := br', state := .parsing } := by
+    rcases fill_cases inp G r hw with
+      ⟨br', ext, n, hfill, hbuf', hcap', hcur', hext, hw2, he2, hn⟩ |
+      ⟨br', ext, k, hfill, hbuf', hcap', hcur', hle, hnG, hw2⟩
+    · cases n with
+      | zero =>
+        have hnx : next fuel r = ({ r with br := br', state := .finished }, .ok false) := by
+          simp only [next, hst, init, hfill]
+        rw [hnx]
+        by_cases hG : G
+        · have hbuf := hbufG hG
+          have hcur0 : r.br.src.cursor = 0 := by
+            have := hw.byte_pos
+            rw [hbuf, hbyte, hp0] at this
+            simpa using this.symm
+          have hnil : inp = [] := by
+            have := hw.cap3
+            rw [hbuf, hcur0, ← hn] at hext
+            simp only [List.length_nil, Nat.sub_zero] at hext
+            have : inp.length = 0 := by omega
+            exact List.eq_nil_of_length_eq_zero this
+          have hi : its = [] := by
+            rw [hitems, hnil]
+            exact fqGo_end false 0 1
+          subst hi
+          exact Or.inl (Or.inr (Or.inl ⟨rfl, rfl, rfl, hw2.set_state _⟩))
+        · exact Or.inr ⟨hG, Or.inl rfl, [], good_finished_of (hw2.set_state _) rfl, Or.inl rfl⟩
+      | succ n =>
+        have : next fuel r = nextCont fuel { r with br := br', state := .parsing } := by
+          simp only [next, hst, init, hfill]
+        rw [this, hitems, ← hbyte, ← hline]
+        have hb2 : Base inp G { r with br := br' } := ⟨hw2, by simp [hp0]⟩
+        exact Or.inl (nextCont_found inp G fuel { r with br := br', state := .parsing }
+          (hb2.set_state .parsing) he2 (by intro ip h; simp only [hip] at h; cases h) hfuel)
+    · have hnx : next fuel r = ({ r with br := br', state := .new }, .err (.io k)) := by
         simp only [next, hst, init, hfill]
-      rw [this, hitems, ← hbyte, ← hline]
-      have hb2 : Base inp G { r with br := br' } := ⟨hw2, by simp [hp0]⟩
-      exact nextCont_found inp G fuel { r with br := br', state := .parsing }
-        (hb2.set_state .parsing) he2 (by intro ip h; simp only [hip] at h; cases h) hfuel
+      rw [hnx]
+      refine Or.inr ⟨hnG, Or.inr ⟨k, rfl⟩, its, ?_, Or.inr rfl⟩
+      unfold Good
+      exact ⟨hw2.set_state _, fun h => absurd h hnG, hp0, hbyte, hline, hip, hitems⟩
   | parsing =>
     simp only [Good, hst] at hg
     obtain ⟨hb, he, hip, h01, h1l, hitems⟩ := hg
@@ -121,7 +152,7 @@ theorem next_found (inp : List UInt8) (G : Prop) (fuel : Nat) (r : Reader) (its 
         byte := r.byte + (r.bp.pos1 + 1 - r.bp.pos0), line := r.line + 4,
         bp := { r.bp with pos0 := r.bp.pos1 + 1 } } ?_ he
         (by intro ip h; simp only [hip] at h; cases h) hfuel
-    · simpa only [hst] using h
+    · exact Or.inl (by simpa only [hst] using h)
     · obtain ⟨⟨a, b, c, d, e, f, g, i, w, k, z⟩, -⟩ := hb
       exact ⟨⟨a, b, c, d, e, f, g, i, w, by simp only; omega, z⟩, h1l⟩
 
@@ -142,12 +173,12 @@ theorem Shown.good {inp G r x its'} (h : Shown inp G .parsing r x its') : Good i
   · simp only [Good, hst]
     exact ⟨⟨h.win, by have := h.p01; omega⟩, h.eof, hip, Nat.le_succ_of_le h.p01, h1l, hits⟩
   · simp only [Good, hst]
-    exact ⟨h.win, h.eof, hits⟩
+    exact ⟨h.win, hits⟩
 
 theorem Fin.good {inp G r} (h : Fin inp G r) : Good inp G r [] := by
   unfold Good
   rw [h.1]
-  exact ⟨h.2.1, h.2.2, rfl⟩
+  exact ⟨h.2, rfl⟩
 
 /-- one `next` call: a good state for the remaining items, and what the caller sees -/
 theorem next_spec (inp : List UInt8) (G : Prop) (fuel : Nat) (r : Reader) (items : List FqItem)
@@ -155,9 +186,10 @@ theorem next_spec (inp : List UInt8) (G : Prop) (fuel : Nat) (r : Reader) (items
     ∃ items', Good inp G (next fuel r).1 items' ∧
       ((items = [] ∧ items' = [] ∧ observe (next fuel r).1 (next fuel r).2 = .none) ∨
        (∃ i, items = i :: items' ∧ observe (next fuel r).1 (next fuel r).2 = obsOf i) ∨
-       (¬ G ∧ (next fuel r).2 = .err .bufferLimit ∧ items' = [])) := by
+       ¬ G) := by
   rcases next_found inp G fuel r items hg hfuel with
-    ⟨hr, x, its', hits, hsh⟩ | ⟨hr, hits, hfin⟩ | ⟨e, b, l, hr, hits, hfin⟩ | ⟨hr, hG, hfin⟩
+    (⟨hr, x, its', hits, hsh⟩ | ⟨hr, hits, hfin⟩ | ⟨e, b, l, hr, hits, hfin⟩ |
+      ⟨e, hr, henv, hG, hfin⟩) | ⟨hG, hres, its', hg', hst'⟩
   · refine ⟨its', hsh.good, Or.inr (Or.inl ⟨_, hits, ?_⟩)⟩
     rw [hr, observe_of_viewRec hsh.view]
     simp only [obsOf, recOf, hsh.line_eq, hsh.byte_eq]
@@ -165,7 +197,8 @@ theorem next_spec (inp : List UInt8) (G : Prop) (fuel : Nat) (r : Reader) (items
     rw [hr]; rfl
   · refine ⟨[], hfin.good, Or.inr (Or.inl ⟨_, hits, ?_⟩)⟩
     rw [hr]; rfl
-  · exact ⟨[], hfin.good, Or.inr (Or.inr ⟨hG, hr, rfl⟩)⟩
+  · exact ⟨[], hfin.good, Or.inr (Or.inr hG)⟩
+  · exact ⟨its', hg', Or.inr (Or.inr hG)⟩
 
 theorem take_append_replicate_succ {α : Type} (l : List α) (x : α) (k : Nat) :
     (l ++ List.replicate (k + 1) x).take k = (l ++ List.replicate k x).take k := by
@@ -186,7 +219,7 @@ theorem runNexts_spec (inp : List UInt8) (k : Nat) :
     obtain ⟨items', hg', hcase⟩ := next_spec inp True _ r items hg hfuel
     simp only [runNexts]
     rw [ih _ items' hg']
-    rcases hcase with ⟨h1, h2, h3⟩ | ⟨i, h1, h2⟩ | ⟨h1, -⟩
+    rcases hcase with ⟨h1, h2, h3⟩ | ⟨i, h1, h2⟩ | h1
     · subst h1; subst h2
       rw [h3]
       simp [List.replicate_succ]
@@ -197,17 +230,26 @@ theorem runNexts_spec (inp : List UInt8) (k : Nat) :
     · exact absurd trivial h1
 
 theorem win_mkReader (inp : List UInt8) (G : Prop) (cap : Nat) (hcap : 3 ≤ cap) (pol : Pol)
-    (hwf : PolWf1 pol) (hg : G → PolGrows pol) (script : List ReadEv) (hs : NoFail script)
-    (chunk : Nat) : Win inp G (mkReader inp cap pol script chunk) := by
-  refine ⟨rfl, Nat.zero_le _, hs, hwf, hg, hcap, Nat.zero_le _, Nat.le_refl _, ?_, rfl, rfl⟩
+    (hwf : PolWf1 pol) (hg : G → PolGrows pol) (script : List ReadEv) (hs : G → NoFail script)
+    (chunk : Nat) (seekFails : List (Nat × IoKind)) (hsf : G → seekFails = []) :
+    Win inp G (mkReader inp cap pol script chunk seekFails) := by
+  refine ⟨rfl, Nat.zero_le _, hs, hwf, hg, hcap, Nat.zero_le _, Nat.le_refl _, ?_, rfl, hsf⟩
   simp [mkReader]
+
+/-- the initial state, in any environment -/
+theorem good_mkReader'' (inp : List UInt8) (G : Prop) (cap : Nat) (hcap : 3 ≤ cap) (pol : Pol)
+    (hwf : PolWf1 pol) (hg : G → PolGrows pol) (script : List ReadEv) (hs : G → NoFail script)
+    (chunk : Nat) (seekFails : List (Nat × IoKind)) (hsf : G → seekFails = []) :
+    Good inp G (mkReader inp cap pol script chunk seekFails) (Spec.fastq inp) := by
+  unfold Good
+  refine ⟨win_mkReader inp G cap hcap pol hwf hg script hs chunk seekFails hsf,
+    fun _ => rfl, rfl, rfl, rfl, rfl, ?_⟩
+  simp only [itemsAt, List.drop_zero, Spec.fastq]
 
 theorem good_mkReader' (inp : List UInt8) (G : Prop) (cap : Nat) (hcap : 3 ≤ cap) (pol : Pol)
     (hwf : PolWf1 pol) (hg : G → PolGrows pol) (script : List ReadEv) (hs : NoFail script)
-    (chunk : Nat) : Good inp G (mkReader inp cap pol script chunk) (Spec.fastq inp) := by
-  unfold Good
-  refine ⟨win_mkReader inp G cap hcap pol hwf hg script hs chunk, rfl, rfl, rfl, rfl, rfl, rfl, ?_⟩
-  simp only [itemsAt, List.drop_zero, Spec.fastq]
+    (chunk : Nat) : Good inp G (mkReader inp cap pol script chunk) (Spec.fastq inp) :=
+  good_mkReader'' inp G cap hcap pol hwf hg script (fun _ => hs) chunk [] (fun _ => rfl)
 
 theorem good_mkReader (inp : List UInt8) (cap : Nat) (hcap : 3 ≤ cap) (pol : Pol) (hpol : PolGrows pol)
     (script : List ReadEv) (hs : NoFail script) (chunk : Nat) :
@@ -273,7 +315,7 @@ theorem next_observe (inp : List UInt8) (fuel : Nat) (r : Reader) (h : Inv inp r
       ∃ i, observe (next fuel r).1 (next fuel r).2 = obsOf i := by
   obtain ⟨items, hg⟩ := h
   obtain ⟨items', -, hc⟩ := next_spec inp True fuel r items hg hfuel
-  rcases hc with ⟨-, -, h3⟩ | ⟨i, -, h2⟩ | ⟨h1, -⟩
+  rcases hc with ⟨-, -, h3⟩ | ⟨i, -, h2⟩ | h1
   · exact Or.inl h3
   · exact Or.inr ⟨i, h2⟩
   · exact absurd trivial h1
